@@ -2,6 +2,8 @@ import EphVerif.Model.Handshake
 
 /-! Helper lemmas for C20: the invariant "a success record / a registered key was validated" and its
 preservation by every operation of the handshake model. -/
+set_option linter.unusedSimpArgs false
+
 namespace EphVerif.C20
 open EphVerif.Handshake
 
